@@ -254,7 +254,8 @@ func HarnessC18Nested() {
 			outer = objWith(map[string]spec.Schema{"w": s})
 			data = map[string]interface{}{"w": data}
 		} else {
-			outer.Items = &spec.SchemaOrArray{Schema: &s}
+			wrapped := s // a copy: &s would make the schema refer to itself once s is overwritten below
+			outer.Items = &spec.SchemaOrArray{Schema: &wrapped}
 			data = []interface{}{data}
 		}
 		s = outer
@@ -446,7 +447,8 @@ func HarnessC19Nested() {
 			outer = objWith(map[string]spec.Schema{"w": s})
 			data = map[string]interface{}{"w": data}
 		} else {
-			outer.Items = &spec.SchemaOrArray{Schema: &s}
+			wrapped := s // a copy: &s would make the schema refer to itself once s is overwritten below
+			outer.Items = &spec.SchemaOrArray{Schema: &wrapped}
 			data = []interface{}{data}
 		}
 		s = outer
